@@ -166,8 +166,13 @@ impl MirroringManager {
         let immutable_bytes = bytes.clone().freeze();
         self.byte_senders.iter_mut().for_each(|sender| {
             match sender.try_send(immutable_bytes.clone()) {
+                #[cfg(feature = "verif")]
+                Ok(_) => {
+                    crate::vtrace!("mirror_enqueue", "ok" => true, "len" => immutable_bytes.len());
+                }
                 Ok(_) => {}
                 Err(err) => {
+                    crate::vtrace!("mirror_enqueue", "ok" => false, "len" => immutable_bytes.len());
                     warn!("Failed to send bytes to a mirror channel {}", err);
                 }
             }
